@@ -2,6 +2,8 @@ package an
 
 import (
 	"fmt"
+	"go/constant"
+	"go/token"
 
 	"golang.org/x/tools/go/ssa"
 )
@@ -47,21 +49,25 @@ type CutQuery struct {
 // Cut answers: is any target reachable from q.From without crossing an accepting edge or instruction?
 // It returns the first reachable target and the branch decisions leading to it.
 func Cut(q CutQuery) (ssa.Instruction, []Step) {
+	// Blocks whose branch condition is a phi defined in the block itself (the join of a short-circuit `a && b` / `a || b`
+	// evaluated as a value) are visited once per predecessor: coming from a predecessor whose incoming value is a
+	// constant only one successor is feasible, and otherwise the edge carries the incoming value's atom.
 	type key struct {
-		b *ssa.BasicBlock
+		b    *ssa.BasicBlock
+		pred int
 	}
-	// scan remainder of the first block, then BFS over blocks from their start
 	type node struct {
 		b      *ssa.BasicBlock
 		idx    int
+		pred   int // index into b.Preds of the edge taken into b; -1 if irrelevant/unknown
 		parent int
 		via    Step
 	}
 	var nodes []node
-	visited := map[*ssa.BasicBlock]bool{}
-	nodes = append(nodes, node{q.From.Block, q.From.Idx, -1, Step{}})
+	visited := map[key]bool{}
+	nodes = append(nodes, node{q.From.Block, q.From.Idx, -1, -1, Step{}})
 	if q.From.Idx == 0 {
-		visited[q.From.Block] = true
+		visited[key{q.From.Block, -1}] = true
 	}
 	for qi := 0; qi < len(nodes); qi++ {
 		n := nodes[qi]
@@ -83,19 +89,85 @@ func Cut(q CutQuery) (ssa.Instruction, []Step) {
 		if blocked {
 			continue
 		}
+		phi, neg := phiCond(n.b)
 		for si, s := range n.b.Succs {
 			a := EdgeAtom(n.b, si)
-			if q.AcceptEdge != nil && q.AcceptEdge(n.b, si, a) {
+			if phi != nil && n.pred >= 0 && n.pred < len(phi.Edges) {
+				in := phi.Edges[n.pred]
+				want := (si == 0) != neg // the value the incoming operand must have for this successor
+				if k, ok := in.(*ssa.Const); ok && k.Value != nil && k.Value.Kind() == constant.Bool {
+					if constant.BoolVal(k.Value) != want {
+						continue // infeasible on this path
+					}
+					a = nil
+				} else {
+					a = CondAtom(in, want)
+				}
+			}
+			if a != nil && q.AcceptEdge != nil && q.AcceptEdge(n.b, si, a) {
 				continue
 			}
-			if visited[s] {
+			if a == nil && q.AcceptEdge != nil && q.AcceptEdge(n.b, si, nil) {
 				continue
 			}
-			visited[s] = true
-			nodes = append(nodes, node{s, 0, qi, Step{n.b, si, a}})
+			pi := -1
+			if p2, _ := phiCond(s); p2 != nil {
+				pi = predIndex(n.b, si)
+			}
+			if visited[key{s, pi}] {
+				continue
+			}
+			visited[key{s, pi}] = true
+			nodes = append(nodes, node{s, 0, pi, qi, Step{n.b, si, a}})
 		}
 	}
 	return nil, nil
+}
+
+// phiCond returns the phi (defined in b) that b's terminating If branches on, and whether it is negated.
+func phiCond(b *ssa.BasicBlock) (*ssa.Phi, bool) {
+	if len(b.Instrs) == 0 {
+		return nil, false
+	}
+	iff, ok := b.Instrs[len(b.Instrs)-1].(*ssa.If)
+	if !ok {
+		return nil, false
+	}
+	c := iff.Cond
+	neg := false
+	for {
+		if u, ok := c.(*ssa.UnOp); ok && u.Op == token.NOT {
+			c = u.X
+			neg = !neg
+			continue
+		}
+		break
+	}
+	phi, ok := c.(*ssa.Phi)
+	if !ok || phi.Block() != b {
+		return nil, false
+	}
+	return phi, neg
+}
+
+// predIndex returns the index in b.Succs[si].Preds that corresponds to the edge (b, si).
+func predIndex(b *ssa.BasicBlock, si int) int {
+	s := b.Succs[si]
+	nth := 0
+	for k := 0; k < si; k++ {
+		if b.Succs[k] == s {
+			nth++
+		}
+	}
+	for j, p := range s.Preds {
+		if p == b {
+			if nth == 0 {
+				return j
+			}
+			nth--
+		}
+	}
+	return -1
 }
 
 // PathString renders a witness path.
